@@ -19,12 +19,22 @@ def shard_product(*dims):
 
 PROPS = {
     "C01": {
-        "claim": "content clause of the round trip, decided at the escaping kernels of the real code",
+        "claim": "serialise-then-parse through the public API (to_string, parse) returns the same tree: character data "
+                 "(text, attribute values, comments, PIs) for all XML Chars, and expanded names / attributes / declarations "
+                 "for all small namespace layouts; plus the escaping kernels alone at a larger length bound",
         "harnesses": [
             H("h_c01_attr_roundtrip", {"N": 3}, {"N": 5}),
+            H("h_c01_text", {"N": 2}, {"N": 3}, shards={"quick": shard_choose("len", 2), "thorough": shard_choose("len", 3)}),
+            H("h_c01_attr", {"N": 2}, {"N": 3}, shards={"quick": shard_choose("len", 3), "thorough": shard_choose("len", 4)}),
+            H("h_c01_mixed", shards={"quick": shard_choose("shape", 4), "thorough": shard_choose("shape", 4)}),
+            H("h_c01_ns", shards={"quick": shard_product(("c0", 8), ("ns0", 3)), "thorough": shard_product(("c0", 8), ("ns0", 3))}),
         ],
-        "bounds": {"quick": "strings of 0..=3 XML Chars", "thorough": "strings of 0..=5 XML Chars"},
-        "outside": "whole-tree to_string/parse pipeline (generator-driven serializer, xmlparser tokenizer)",
+        "bounds": {"quick": "text and attribute values of <=2 symbolic XML Chars end to end (<=3 at the kernel), comment / PI / "
+                            "text of 1 char in 4 mixed-content shapes, 2-level element trees over 8x8 declaration layouts x 3x3 "
+                            "element namespaces x 2 attribute namespaces",
+                   "thorough": "<=3 chars end to end (<=5 at the kernel)"},
+        "outside": "trees deeper than 2 levels or contents longer than the bound; documents obtained by parsing as the start "
+                   "of the round trip (C02/C03 cover the parser); normalizers other than the no-op one",
         "assumptions": [],
     },
 }
